@@ -23,6 +23,27 @@ pub const KINDS: &[(&str, &str)] = &[
 
 /// R-expect: reference parser of the documented BNF.
 /// Returns (expression, long kind name, quantifier "" | "?" | "*" | "+").
+/// the expression of a parsed expectation is the written one, character for character, for the
+/// kinds that take it verbatim (`equal`, `no-eol`, `glob` without the escaped marker); `regex` is
+/// cleaned up and `escaped` decoded on the way in, so they are not compared here
+pub fn expression_as_written(got: &scrut::expectation::Expectation, line: &str) -> Result<(), String> {
+    let (expr, kind, _) = r_expect(line);
+    let (gk, gexpr, _, _) = got.unmake();
+    let verbatim = match kind {
+        "equal" | "no-eol" => true,
+        "glob" => !(expr.ends_with(" (escaped)") || expr.ends_with(" (esc)")),
+        _ => false,
+    };
+    if verbatim && gk == kind && gexpr != expr.as_bytes() {
+        return Err(format!(
+            "expectation line {line:?}: the expression in force is {:?}, written {:?}",
+            String::from_utf8_lossy(&gexpr),
+            expr
+        ));
+    }
+    Ok(())
+}
+
 pub fn r_expect(line: &str) -> (String, &'static str, &'static str) {
     r_expect_sep(line, true)
 }
